@@ -17,6 +17,7 @@ LATTICES = {
     'two-roots': [(), (), (0, 1), (2,), (1,)],
     'wide': [(), (0,), (0,), (0,), (1, 3)],
 }
+THR = (1, 0)      # predicate 0 accepts instances with attribute n >= 1 only; predicate 1 looks at the class only
 FLAGS = [(cs, cd, rd) for cs in (0, 1) for cd in (0, 1) for rd in (0, 1)]
 _counter = [0]
 
@@ -69,7 +70,10 @@ def gen_history(r, ncls, n):
             h.append(('rp', r.randrange(2), r.randrange(5, 8)))
         elif x < 0.72:
             # how the instance reaches the printer: bare, or (first!) through a comment wrapper, top level or nested
-            h.append(('pr', c, r.randrange(1, 6)) if r.random() < 0.35 else ('pr', c))
+            # ... and with an instance attribute n in {0, 1}: predicate 0 looks at the VALUE (accepts n >= 1 only)
+            how = r.randrange(1, 6) if r.random() < 0.35 else 0
+            n = 1 if r.random() < 0.4 else 0
+            h.append(('pr', c, how, n) if (how or n) else ('pr', c))
         else:
             h.append(('ir', c) + r.choice(FLAGS))
     return h
@@ -114,12 +118,15 @@ def run_impl(lat, acc, h):
                     # same or another printer) adds a later entry and leaves the first-registered one first
                     if op[1] not in pred_objs:
                         S = tuple(classes[k] for k in acc[op[1]])
-                        pred_objs[op[1]] = lambda v, _S=S: type(v) in _S
+                        pred_objs[op[1]] = lambda v, _S=S, _thr=THR[op[1]]: type(v) in _S and getattr(v, 'n', 0) >= _thr
                     register_pretty(predicate=pred_objs[op[1]])(lambda v, ctx, _t='P%d' % op[2]: _t)
                     obs.append('-')
                 elif op[0] == 'pr':
                     try:
-                        t = pformat(_shown(classes[op[1]](), op[2] if len(op) > 2 else 0))
+                        inst = classes[op[1]]()
+                        if len(op) > 3 and op[3]:
+                            inst.n = op[3]
+                        t = pformat(_shown(inst, op[2] if len(op) > 2 else 0))
                         m = re.search(r'P\d+|REPR', t)
                         t = m.group(0) if m else t
                     except Exception as e:
@@ -160,8 +167,9 @@ def spec(lat_mro, acc, h):
                     out.append('P%d' % latest[s])
                     break
             else:
+                n = op[3] if len(op) > 3 else 0
                 for q, p in preds:
-                    if c in acc[q]:
+                    if c in acc[q] and n >= THR[q]:
                         out.append('P%d' % p)
                         break
                 else:
@@ -178,9 +186,20 @@ def spec(lat_mro, acc, h):
 
 
 def request(mro, acc, h):
-    m = ' '.join('(%d %s)' % (k, ' '.join(str(x) for x in l)) for k, l in enumerate(mro))
-    a = ' '.join('(%d %s)' % (q, ' '.join(str(x) for x in l)) for q, l in enumerate(acc))
-    ops = ' '.join('(%s)' % ' '.join(str(x) for x in (op[:2] if op[0] == 'pr' else op)) for op in h)
+    """the model knows classes only: an instance with n = 1 is presented to it as an instance of a virtual
+    subclass (index c + ncls, MRO = itself + the MRO of c, never registered) which the value-dependent predicate
+    accepts while it rejects the class itself"""
+    ncls = len(mro)
+    vmro = list(mro) + [[k + ncls] + list(l) for k, l in enumerate(mro)]
+    vacc = [[c for c in l if THR[q] <= 0] + [c + ncls for c in l] for q, l in enumerate(acc)]
+    m = ' '.join('(%d %s)' % (k, ' '.join(str(x) for x in l)) for k, l in enumerate(vmro))
+    a = ' '.join('(%d %s)' % (q, ' '.join(str(x) for x in l)) for q, l in enumerate(vacc))
+
+    def enc(op):
+        if op[0] == 'pr':
+            return ('pr', op[1] + (ncls if len(op) > 3 and op[3] else 0))
+        return op
+    ops = ' '.join('(%s)' % ' '.join(str(x) for x in enc(op)) for op in h)
     return '(dispatch (%s) (%s) (%s))' % (m, a, ops)
 
 
@@ -302,6 +321,9 @@ def main(tier):
         for how in range(1, 6):
             cases.append(('chain', [[1], [2]], [('rn', 0, 1), ('pr', 1, how), ('pr', 1), ('rn', 0, 2), ('pr', 0, how)]))
             cases.append(('diamond', [[3], [0, 4]], [('rn', 1, 3), ('rp', 0, 5), ('pr', 3, how), ('pr', 1, how)]))
+        cases.append(('chain', [[0, 1], [0, 1]], [('rp', 0, 5), ('rp', 1, 6), ('pr', 0, 0, 0), ('pr', 0, 0, 1), ('pr', 1, 0, 1),
+                                                   ('pr', 1, 0, 0), ('pr', 0, 3, 1)]))
+        cases.append(('chain', [[2], [2, 3]], [('rp', 1, 7), ('rp', 0, 5), ('pr', 2, 0, 1), ('pr', 2, 0, 0), ('pr', 3, 0, 1)]))
         n = 2500 if tier == 'quick' else 40000
         names = list(LATTICES)
         for _ in range(n):
